@@ -70,6 +70,10 @@ type C04Spec struct {
 	// between two renders through the one wrapper: after render number After
 	// of the Renders (0 = after the PreRenders, before the first of them).
 	Between []BetweenWrite `json:"between,omitempty"`
+	// Redecl: after the (first) render, rounds of items changing their text /
+	// declared width / declared height, Cell.Update, and a render through the
+	// same wrapper (harness/c04_r6.go); the last render is judged.
+	Redecl []Redecl `json:"redecl,omitempty"`
 }
 
 type BetweenWrite struct {
@@ -193,7 +197,13 @@ func (cs *C04Spec) normalise() {
 	if cs.PreRenders < 0 {
 		cs.PreRenders = 0
 	}
-	if len(cs.AlignCbs) > 0 || len(cs.Between) > 0 {
+	if len(cs.Redecl) > 0 {
+		// the rounds follow the build's own render; the cells are addressed by
+		// their place in the spec, so the build is a plain one
+		cs.AlignCbs, cs.Between, cs.Renders, cs.PreRenders = nil, nil, 1, 0
+		cs.Table.Header2, cs.Table.Scribble, cs.Table.Reenter, cs.Long = nil, false, 0, nil
+	}
+	if len(cs.AlignCbs) > 0 || len(cs.Between) > 0 || len(cs.Redecl) > 0 {
 		cs.Table.Stages = nil
 		cs.Table.Mutations = nil
 		cs.Table.StageFaults = false
@@ -206,6 +216,15 @@ func (cs *C04Spec) normalise() {
 
 func (cs C04Spec) cbSize() int {
 	n := 2*(cs.Renders-1) + 2*cs.PreRenders + 3*len(cs.Between)
+	for _, rd := range cs.Redecl {
+		n += 3 + rd.Round + len(rd.S)
+		if rd.W != nil {
+			n++
+		}
+		if rd.H != nil {
+			n++
+		}
+	}
 	for _, cb := range cs.AlignCbs {
 		n += 4 + len(cb.Seq) + cb.OwnerIdx + cb.Cell + cb.Via + cb.Reg
 		if cb.PerCall {
@@ -228,6 +247,7 @@ func runC04Spec(spec json.RawMessage) CaseOut {
 	cs.normalise()
 	var log []alignWrite
 	ts := cs.TextSpec
+	ts.viewFix = cs.viewFix()
 	ts.ext = func() *textExt {
 		log = nil
 		render := 0
@@ -276,6 +296,10 @@ func runC04Spec(spec json.RawMessage) CaseOut {
 					between(k)
 					o = capture(w.Render)
 				}
+				for round := 1; round <= redeclRounds(cs.Redecl) && table != nil; round++ {
+					runRedeclRound(cs.Table, table, cs.Redecl, round)
+					o = capture(w.Render)
+				}
 				return o
 			},
 		}
@@ -312,7 +336,7 @@ func runC04Spec(spec json.RawMessage) CaseOut {
 			changed = true
 		}
 	}
-	tags := co.Tags
+	tags := append(co.Tags, redeclTags(cs)...)
 	if len(cs.AlignCbs) > 0 {
 		tags = append(tags, "render-pass=callbacks-registered")
 		for _, cb := range cs.AlignCbs {
@@ -392,6 +416,7 @@ func shrinkC04JSON(spec json.RawMessage) []json.RawMessage {
 		c.PreRenders = 0
 		out = append(out, mustJSON(c))
 	}
+	out = append(out, shrinkRedecl(cs, clone)...)
 	for i := range cs.Between {
 		c := clone()
 		c.Between = append(append([]BetweenWrite{}, cs.Between[:i]...), cs.Between[i+1:]...)
